@@ -26,6 +26,7 @@ pub fn show(h: &[Ev]) -> String {
         .map(|e| match e {
             Ev::P(d, v) => format!("P(+{}ns,{:?})", d, v),
             Ev::N(_) => "N".to_string(),
+            Ev::Er(_, 0) => "FromNone".to_string(),
             Ev::Er(_, c) => format!("E{}", c),
         })
         .collect::<Vec<_>>()
@@ -141,7 +142,7 @@ pub fn run_real(g: Gains, h: &[Ev], t0: i64, scale: f32) -> Vec<(u32, Obs)> {
         r.inp.borrow_mut().next = match e {
             Ev::P(_, v) => Ok(Some(Datum::new(Time(t), *v * scale))),
             Ev::N(_) => Ok(None),
-            Ev::Er(_, c) => Err(Error::Other(*c)),
+            Ev::Er(_, c) => Err(err_val(*c)),
         };
         let u = r.pid.update();
         out.push((obs_unit(&u), obs(&r.pid.get())));
@@ -159,7 +160,7 @@ pub fn run_composed(g: Gains, h: &[Ev], t0: i64) -> Vec<Obs> {
         inp.borrow_mut().next = match e {
             Ev::P(_, v) => Ok(Some(Datum::new(Time(t), Quantity::new(*v, MILLIMETER)))),
             Ev::N(_) => Ok(None),
-            Ev::Er(_, c) => Err(Error::Other(*c)),
+            Ev::Er(_, c) => Err(err_val(*c)),
         };
         c.update();
         out.push(obs(&c.out.get()));
@@ -228,7 +229,7 @@ pub fn check_history(gi: usize, h: &[Ev], e: &mut Eng, o: &Opts) -> u64 {
             Ev::Er(_, c) => {
                 r.reset();
                 refs.push(None);
-                if main[k].0 != 2 + *c as u32 {
+                if main[k].0 != obs_unit(&Err(err_val(*c))) {
                     e.violation("pid:update-result", k + 1, || format!("history [{}]: update() did not return the input's error", show(&h[..=k])));
                 }
             }
@@ -315,7 +316,7 @@ pub fn exact_syms() -> Vec<Ev> {
     }
     v.push(Ev::N(S));
     v.push(Ev::Er(S, 1));
-    v.push(Ev::Er(S, 2));
+    v.push(Ev::Er(S, 0)); // the crate's own Error::FromNone
     v
 }
 pub fn broad_syms() -> Vec<Ev> {
